@@ -130,7 +130,7 @@ def build_env(case):
                 kw["vdims"] = list(case["vdims"])
             if mapping is not None:
                 kw["vdim_mapping"] = gen.shuffled_mapping(mapping, case.get("perm_seed", 0) + 3)
-        fields[name] = df.Field(mesh, nvdim=nv, value=arr, dtype=DT[dt], unit=case.get("unit"),
+        fields[name] = df.Field(mesh, nvdim=nv, value=np.array(arr, copy=True), dtype=DT[dt], unit=case.get("unit"),
                                 valid=gen.make_mask(case["masks"][name], n), **kw)
         arrays[name] = arr.copy()
     return mesh, fields, arrays
